@@ -21,26 +21,34 @@ Definition fd_decl_len (n : Z) (p a : option Z) (circ : bool) : Z :=
   if circ then n else n + b2z (given p) + b2z (given a) - 1.
 
 (** _eval (_diff.py:237-275): what is put in front of / behind the array before snp.diff;
-    the tests there are [== 0] / [== 1] *)
-Definition fd_eval_pre (p : option Z) (circ : bool) : bool :=
-  if circ then false else match p with Some z => (z =? 0) || (z =? 1) | None => false end.
-Definition fd_eval_app (a : option Z) (circ : bool) : bool :=
-  if circ then true else match a with Some z => (z =? 0) || (z =? 1) | None => false end.
+    the tests there are [== 0] / [== 1].  For prepend/append = 0 and for circular a slice
+    x[ind] of width 1 along the axis is used; [ind] is built with [i == self.axis], which never
+    holds when the stored axis is negative ([neg], only possible for axis < -rank): then the
+    whole array (length n on the axis) is prepended / appended *)
+Definition fd_ext (n : Z) (o : option Z) (neg : bool) : Z :=
+  match o with
+  | Some z => if z =? 0 then (if neg then n else 1) else if z =? 1 then 1 else 0
+  | None => 0
+  end.
 (** snp.diff of an axis of length m has length max(m - 1, 0) *)
-Definition fd_eval_len (n : Z) (p a : option Z) (circ : bool) : Z :=
-  Z.max (n + b2z (fd_eval_pre p circ) + b2z (fd_eval_app a circ) - 1) 0.
+Definition fd_eval_len (n : Z) (p a : option Z) (circ neg : bool) : Z :=
+  Z.max (n + (if circ then (if neg then n else 1) else fd_ext n p neg + fd_ext n a neg) - 1) 0.
 
 (** declared = actual on the difference axis, for every length >= 1 and every admissible
     (prepend, append, circular), in particular the falsy values prepend = 0 / append = 0 *)
 Theorem fd_len_declared_eq_actual : forall n p a circ,
-  1 <= n -> fd_args_ok p a circ = true -> fd_decl_len n p a circ = fd_eval_len n p a circ.
+  1 <= n -> fd_args_ok p a circ = true -> fd_decl_len n p a circ = fd_eval_len n p a circ false.
 Proof.
   intros n p a circ Hn H. unfold fd_args_ok in H.
   apply andb_true_iff in H as [H Ha]. apply andb_true_iff in H as [Hc Hp].
-  unfold fd_decl_len, fd_eval_len, fd_eval_pre, fd_eval_app.
+  unfold fd_decl_len, fd_eval_len, fd_ext.
   destruct circ.
   - simpl in Hc. destruct p, a; simpl in Hc; try discriminate. simpl. lia.
-  - destruct p as [zp|], a as [za|]; simpl in Hp, Ha; try rewrite Hp; try rewrite Ha; simpl; lia.
+  - destruct p as [zp|], a as [za|]; simpl in Hp, Ha;
+      repeat match goal with
+             | H : (_ =? 0) || (_ =? 1) = true |- _ =>
+                 apply orb_true_iff in H as [H|H]; apply Z.eqb_eq in H; subst
+             end; simpl; lia.
 Qed.
 
 (** axis normalisation of SingleAxisFiniteDifference (_diff.py:195-202): a negative axis is
@@ -65,17 +73,17 @@ Definition safd_declared (s : shape) (ax : Z) (p a : option Z) (circ : bool) : o
 
 (** the shape evaluation produces: snp.diff along [self.axis] (Python indexing: a negative
     axis counts from the end) *)
-Fixpoint fd_eval_from (i : Z) (s : shape) (axis : Z) (p a : option Z) (circ : bool) : shape :=
+Fixpoint fd_eval_from (i : Z) (s : shape) (axis : Z) (p a : option Z) (circ neg : bool) : shape :=
   match s with
   | [] => []
-  | x :: t => (if i =? axis then fd_eval_len x p a circ else x) :: fd_eval_from (i + 1) t axis p a circ
+  | x :: t => (if i =? axis then fd_eval_len x p a circ neg else x) :: fd_eval_from (i + 1) t axis p a circ neg
   end.
 Definition safd_actual (s : shape) (ax : Z) (p a : option Z) (circ : bool) : option shape :=
   match fd_axis (length s) ax with
   | None => None
   | Some k =>
       if fd_args_ok p a circ
-      then Some (fd_eval_from 0 s (if k <? 0 then Z.of_nat (length s) + k else k) p a circ) else None
+      then Some (fd_eval_from 0 s (if k <? 0 then Z.of_nat (length s) + k else k) p a circ (k <? 0)) else None
   end.
 
 (** documented rule: axis in [-rank, rank), the length of that axis changes by
@@ -90,7 +98,7 @@ Proof. revert i. induction s as [|x t IH]; intros i; simpl; [reflexivity|]. rewr
 
 Lemma fd_from_eq i s k p a circ :
   Forall (fun d => 1 <= d) s -> fd_args_ok p a circ = true ->
-  fd_shape_from i s k p a circ = fd_eval_from i s k p a circ.
+  fd_shape_from i s k p a circ = fd_eval_from i s k p a circ false.
 Proof.
   intros Hs Hok. revert i. induction Hs as [|x t Hx Ht IH]; intros i; simpl; [reflexivity|].
   rewrite IH. destruct (i =? k); [|reflexivity]. rewrite fd_len_declared_eq_actual by assumption. reflexivity.
@@ -103,17 +111,18 @@ Theorem safd_declared_eq_spec_eq_actual : forall s ax p a circ,
   safd_declared s ax p a circ = safd_spec s ax p a circ /\
   safd_declared s ax p a circ = safd_actual s ax p a circ.
 Proof.
-  intros s ax p a circ Hs Hax. unfold safd_declared, safd_spec, safd_actual, fd_axis.
+  intros s ax p a circ Hs Hax. unfold safd_declared, safd_spec, safd_actual, fd_axis. cbv zeta.
   destruct (ax <? - Z.of_nat (length s)) eqn:E1; [apply Z.ltb_lt in E1; lia|].
   destruct (Z.of_nat (length s) <=? ax) eqn:E2; [apply Z.leb_le in E2; lia|]. cbn [orb].
-  destruct (ax <? 0) eqn:E3; [apply Z.ltb_lt in E3 | apply Z.ltb_ge in E3].
+  destruct (ax <? 0) eqn:E3; [pose proof (proj1 (Z.ltb_lt _ _) E3) as E3p | pose proof (proj1 (Z.ltb_ge _ _) E3) as E3p].
   - destruct (Z.of_nat (length s) <=? Z.of_nat (length s) + ax) eqn:E4; [apply Z.leb_le in E4; lia|].
     destruct (Z.of_nat (length s) + ax <? 0) eqn:E5; [apply Z.ltb_lt in E5; lia|].
     destruct (fd_args_ok p a circ) eqn:Hok; [|split; reflexivity].
     destruct circ; [rewrite fd_shape_from_circ; split; [reflexivity|]; rewrite <- fd_from_eq by assumption;
                     rewrite fd_shape_from_circ; reflexivity|].
     split; [reflexivity|]. rewrite fd_from_eq by assumption. reflexivity.
-  - destruct (fd_args_ok p a circ) eqn:Hok; [|split; reflexivity].
+  - rewrite E2, ?E3.
+    destruct (fd_args_ok p a circ) eqn:Hok; [|split; reflexivity].
     destruct circ; [rewrite fd_shape_from_circ; split; [reflexivity|]; rewrite <- fd_from_eq by assumption;
                     rewrite fd_shape_from_circ; reflexivity|].
     split; [reflexivity|]. rewrite fd_from_eq by assumption. reflexivity.
@@ -136,6 +145,24 @@ Proof.
   destruct (collapse_shapes (map Plain outs) true) as [[o' b]|] eqn:E; [|discriminate].
   simpl in H. injection H as <-. apply collapse_shapes_size in E. rewrite E, map_map. reflexivity.
 Qed.
+
+(** scico.numpy.util.normalize_axes as used by FiniteDifference (linop_over_axes): negative
+    entries are shifted by the rank once, only the upper bound is tested, duplicates rejected *)
+Fixpoint has_dup (l : list Z) : bool :=
+  match l with [] => false | x :: t => existsb (Z.eqb x) t || has_dup t end.
+Definition norm_axes (rank : nat) (axes : option (list Z)) : option (list Z) :=
+  match axes with
+  | None => Some (map Z.of_nat (seq 0 rank))
+  | Some l =>
+      let l' := map (fun a => if a <? 0 then Z.of_nat rank + a else a) l in
+      if existsb (fun a => Z.of_nat rank <=? a) l' then None
+      else if has_dup l' then None else Some l'
+  end.
+Definition fd_declared (s : shape) (axes : option (list Z)) (p a : option Z) (circ : bool) : option nshape :=
+  match norm_axes (length s) axes with
+  | None => None
+  | Some l => match l with [] => None | _ => fd_stack_declared s l p a circ end
+  end.
 
 (* ------------------------------------------------------------------ DFT *)
 
